@@ -163,6 +163,8 @@ inductive Ev
   | getLocal (t : Nat) (k : Nat)
   | createFail (a : Nat)                            -- `p_uthread_create*` whose native part fails: NULL
   | joinFail (a : Nat) (h : Nat)                    -- `p_uthread_join` whose `pthread_join` fails
+  | tlsFail (t : Nat) (k : Nat) (get : Bool)        -- a TLS call whose lazy `pthread_key_create` fails
+  | currentFail (t : Nat)                           -- `p_uthread_current` whose fresh handle cannot be stored: NULL
   deriving DecidableEq, Repr
 
 def upd {α : Type} (f : Nat → α) (i : Nat) (x : α) : Nat → α := fun j => if j = i then x else f j
@@ -463,6 +465,31 @@ def getLocal (s : State) (t : Nat) (k : Nat) : Except Err State :=
   | .error e => .error e
   | .ok n => .ok { s with getLog := s.getLog ++ [(t, k, s.tls t n)] }
 
+/-- `p_uthread_set_local` / `p_uthread_replace_local` / `p_uthread_get_local` (`get`) on a user key without a native key
+    when the `pthread_key_create` inside `pp_uthread_get_tls_key` fails: `p_malloc0 (sizeof (pthread_key_t))`;
+    `pthread_key_create` ≠ 0; `p_free (thread_key)`; NULL — `set` / `replace` return without storing anything and without
+    calling the notifier, `get` returns NULL.  Nothing is published, no native key exists, the block is gone. -/
+def tlsFail (s : State) (t : Nat) (k : Nat) (get : Bool) : Except Err State :=
+  if ¬ canAct s t ∨ k = 0 ∨ ¬ k < s.nK then .error .notEnabled else
+  if (s.key k).wrapperFreed then .error (.keyUseAfterFree k) else
+  match (s.key k).published with
+  | some _ => .error .notEnabled
+  | none => .ok (if get then { s with getLog := s.getLog ++ [(t, k, 0)] } else s)
+
+/-- `p_uthread_current` of a thread without a stored handle when the lazy creation of the library key's native key keeps
+    failing: `p_uthread_get_local` → NULL; `p_malloc0 (sizeof (PUThreadBase))`, `ref_count = 1`; `p_uthread_set_local` stores
+    nothing; the read-back differs from the fresh block → `p_free (base_thread)`; NULL.  The block takes the next handle id:
+    allocated and released inside the call (as in `createFail`).  (Whether the read-back's own attempt to create the native
+    key succeeds is the separate `keyCreate`/`keyCas` pair.) -/
+def currentFail (s : State) (t : Nat) : Except Err State :=
+  if ¬ canAct s t then .error .notEnabled else
+  if (s.key 0).wrapperFreed then .error (.keyUseAfterFree 0) else
+  if valueOf s t 0 ≠ 0 then .error .notEnabled else
+  .ok { s with
+    nH := s.nH + 1
+    hdl := upd s.hdl s.nH { freed := true, written := true }
+    freeLog := s.freeLog ++ [s.nH] }
+
 /-! ## library shutdown (the end of a history, not an event of the machine)
 
 `p_uthread_init` is the initial state `init`: the library key's wrapper exists (`p_uthread_local_new
@@ -526,6 +553,8 @@ def step (s : State) : Ev → Except Err State
   | .getLocal t k => getLocal s t k
   | .createFail a => createFail s a
   | .joinFail a h => joinFail s a h
+  | .tlsFail t k g => tlsFail s t k g
+  | .currentFail t => currentFail s t
 
 def run : State → List Ev → Except Err State
   | s, [] => .ok s
